@@ -37,6 +37,11 @@ pub fn signed_shift<'a>(term: &Term<'a>, cutoff: usize, amount: isize) -> Option
                     None
                 }
             } else {
+                #[cfg(feature = "verif-hooks")]
+                if amount != 0 {
+                    verif_hooks::SHIFT_BELOW_CUTOFF.with(|c| c.set(c.get() + 1));
+                }
+
                 Some(term.clone())
             }
         }
@@ -438,6 +443,9 @@ pub mod verif_hooks {
     thread_local! {
         // Number of times `open` met an unresolved unifier (and replaced it by a fresh one).
         pub static OPEN_UNRESOLVED: Cell<usize> = const { Cell::new(0) };
+        // Number of times `signed_shift` by a non-zero amount met an unresolved unifier whose shift is
+        // below the cutoff (and left it as it was).
+        pub static SHIFT_BELOW_CUTOFF: Cell<usize> = const { Cell::new(0) };
     }
 }
 
